@@ -170,6 +170,7 @@ def units(tier, seed=0):
             tracked = any(q.elem in 'tm' for q in L.params)
             ulist = elem.ELEM_UNITS + (elem.ELEM_CMP_UNITS if all(q.elem in 'ux' for q in L.params) else [])
             for name, h, key, props in ulist:
+                if 'elem.%s.F%d.%s' % (L.tag, f, name) in OVER_BUDGET: continue
                 if name.endswith('.grows') and not L.is_varying(): continue   # lists without VaryingSize take another branch of move_assign
                 us.append(dict(id='elem.%s.F%d.%s' % (L.tag, f, name), tu='elem_%s_F%d' % (L.tag, f), gen=cxx, template_text=txt, vars={}, entry=h,
                                enforce='@F{%s}' % elem.RXE[key], replace=[], props=props, layer='element.hpp',
@@ -188,6 +189,7 @@ def units(tier, seed=0):
         for name, h, key, props in refops.REF_UNITS:
             if name == 'swap' and len(L.params) > 2:
                 continue   # byte-swap loops plus non-trivial swaps of three-field elements exceed the memory budget
+            if 'ref.%s.%s' % (L.tag, name) in OVER_BUDGET: continue
             us.append(dict(id='ref.%s.%s' % (L.tag, name), tu='ref_' + L.tag, gen=cxx, template_text=txt, vars={}, entry=h,
                            enforce='@F{%s}' % refops.RXR[key], replace=[], props=props, layer='reference.hpp/elementTraits.hpp',
                            kind='bounded(span items <= 2, loops unwound)', unwind=20, cdefs=['VF_TRACKED=1'], config='reference operations: ' + spec))
@@ -232,6 +234,7 @@ def units(tier, seed=0):
                     eq_b = all(q.elem == 'u' for q in L.params); lt_b = all(q.elem == 'u' and q.size == 1 for q in L.params) and not L.is_varying()
                     if extra.get('eq') and eq_b != lt_b: continue     # whole-buffer == next to element-wise <: no common unwinding bound within the memory budget
                     if tier != 'thorough' and not lt_b and spec != 'f4x': continue   # element-wise < (about 100 s per unit): one list in the quick tier
+                    if spec == 'c1 c4a4': continue   # element-wise < of <uint8_t, AlignAs<uint32_t,4>>: the solver exceeds the memory budget (measured: 11 of 19 units killed)
                 if all(q.elem in 'ux' for q in L.params) and not extra.get('intonly'): continue   # integer lists exist for the comparison units only
                 if extra.get('tier') == 'thorough' and tier != 'thorough': continue
                 if extra.get('timeout'): u['timeout'] = extra['timeout']
@@ -297,6 +300,11 @@ def exc_vec_units(tier):
                                cdefs=['VF_BLOCK_K=1', 'VF_ALLOC_MAY_FAIL=1', 'VF_WINDOWS=1', 'CAPK=%d' % capk, 'UNITSK=%d' % (unitsk // L.sa), 'CAPK_O=%d' % capo, 'UNITSK_O=%d' % (unitso // L.sa)],
                                config='allocation failure: vector %s, allocator traits F=%d' % (spec, f)))
     return us
+
+
+# units that exceed the 10 GB address-space limit of one solver process (measured in the thorough tier; they would only ever be undecided)
+OVER_BUDGET = {'ref.f4t_f4t.copy_assign', 'ref.f4t_f4t.move_assign', 'ref.f4t_f4t.swap', 'ref.c4_f4t_c2_f4t.copy_assign', 'ref.c4_f4t_c2_f4t.move_assign',
+               'ref.f2u_f4t_f2u.copy_assign', 'ref.f2u_f4t_f2u.move_assign', 'elem.f4t.F1.copy_assign'}
 
 
 def vec_catalogue(tier):
